@@ -44,7 +44,8 @@ MUTATORS = {"append", "extend", "insert", "pop", "remove", "clear", "sort", "rev
             "popleft", "appendleft", "extendleft", "rotate"}
 
 
-ARITH_UFUNCS = {"numpy.multiply": ast.Mult, "numpy.add": ast.Add, "numpy.subtract": ast.Sub, "numpy.matmul": ast.MatMult, "numpy.divide": ast.Div, "numpy.true_divide": ast.Div}
+ARITH_UFUNCS = {"numpy.multiply": ast.Mult, "numpy.add": ast.Add, "numpy.subtract": ast.Sub, "numpy.matmul": ast.MatMult, "numpy.divide": ast.Div, "numpy.true_divide": ast.Div,
+                "pow": ast.Pow, "numpy.power": ast.Pow, "operator.add": ast.Add, "operator.mul": ast.Mult, "operator.sub": ast.Sub, "operator.matmul": ast.MatMult, "operator.pow": ast.Pow}
 
 
 def private_class(func):
@@ -285,6 +286,12 @@ class Sym(Interp):
             # (x if c else (y, 0))[k]: the index goes into both alternatives - a display is taken apart, an opaque value indexed
             return self.mkphi(b[1], T(self.h_subscript(b[2], idx, n, env, ctx)), T(self.h_subscript(b[3], idx, n, env, ctx)))
         ti = T(idx)
+        FULLS = ("slice", NONE, NONE, NONE)
+        if b[0] == "sub" and isinstance(ti, tuple) and ti and ti[0] == "tuple" and len(ti[1]) == 2 and ti[1][0] == FULLS and isinstance(b[2], tuple) and b[2] and \
+                b[2][0] not in ("tuple", "slice", "const") and not (b[2][0] in ("elem", "idx")):
+            # X[a][:, c]: the second subscript needs two axes, so X[a] (a an index array / a mask, not a scalar) selects rows: X[a, :][:, c], one spelling
+            b = ("sub", b[1], ("tuple", (b[2], FULLS)))
+            base = b
         if b[0] == "dict" and is_const(ti) and all(is_const(k_) and k_[1] != "**" for k_, _ in b[1]):
             hits = [v_ for k_, v_ in b[1] if k_[1] == ti[1] and type(k_[1]) == type(ti[1])]
             if hits:
@@ -480,6 +487,13 @@ class Sym(Interp):
                 not any(isinstance(a, tuple) and a and a[0] == "*" for a in args):
             # np.atleast_1d(a, b, c) is the sequence of the three single conversions
             return TupleV([self.h_call_ext(d, n, [a], {}, env, ctx) for a in args], "tuple")
+        if d in ("numpy.flatnonzero", "numpy.nonzero") and len(args) == 1 and not kwargs and not (isinstance(args[0], tuple) and args[0] and args[0][0] == "*"):
+            # one spelling for "the indices where x is non-zero": np.nonzero(x) is np.where(x); np.flatnonzero(x) is np.where(x)[0] (for the 1-D
+            # masks and columns it is applied to here; on a 2-D array the two differ, and so do the rules that would read either)
+            w = self.h_call_ext("numpy.where", n, list(args), {}, env, ctx)
+            if d == "numpy.nonzero":
+                return w
+            return self.h_subscript(w, ("const", 0), n, env, ctx)
         if d in VALUE_IDENTITY_EXT and len(args) == 1 and not kwargs and not (isinstance(args[0], tuple) and args[0] and args[0][0] == "*"):
             # np.asarray(x): the same values (and, for arrays, the same object - aliasing is the ownership domain's business)
             self.fact("call", ctx, n, env, target=d, args=[T(args[0])], kwargs={}, callkind="ext", result=T(args[0]), rawargs=list(args))
